@@ -12,5 +12,6 @@ CONSTANTS
   SOLVER = {1}
   SCALES = {"unit", "small"}
   SYSCLS = {"spd", "diagdom", "laplace", "diagvar"}
+  OPTS = {}
 INVARIANT WellTyped
 CHECK_DEADLOCK FALSE
